@@ -10,7 +10,11 @@ package main
 import (
 	"fmt"
 	"go/ast"
+	"go/parser"
 	"go/token"
+	"os/exec"
+	"path/filepath"
+	"runtime"
 	"reflect"
 	"strconv"
 	"strings"
@@ -873,5 +877,132 @@ func init() {
 		o.hasStmt(d, "AttributeList", "GetOne", "rest, err := asn1.Unmarshal(raw.Values.Bytes, dest)", "get_one_reads_values_bytes")
 		o.hasStmt(d, "AttributeList", "GetOne", "return ErrNoAttribute{oid}", "get_one_missing_is_error")
 		fingerprint(d, "SignerInfo", "FindCertificate")
+	}
+}
+
+// ---- RSA-PSS parameters in CMS: the salt length DECLARED in the AlgorithmIdentifier (lib/x509tools/rsapss.go
+// MarshalRSAPSSParameters) versus the salt length USED by the signer that lib/pkcs7 SignatureBuilder.Sign calls with the
+// very same options (crypto/rsa.SignPSS of the toolchain the harness is built with, read from GOROOT).
+
+// c16Segment translates the statements of fd.Body from the one printed as `first` up to (excluding) the first later
+// statement whose printed text starts with `stopPrefix`; the value is `rest` evaluated after them.
+func c16Segment(o *out, p *pkgInfo, fd *ast.FuncDecl, fs funcSpec, first, stopPrefix, rest string) {
+	if fd == nil {
+		o.brokenDef(fs.coqName, "function "+fs.dir+":"+fs.name+" not found")
+		return
+	}
+	from, to := -1, -1
+	for i, s := range fd.Body.List {
+		txt := strings.Join(strings.Fields(printNode(p.fset, s)), " ")
+		if from < 0 && txt == first {
+			from = i
+		} else if from >= 0 && strings.HasPrefix(txt, stopPrefix) {
+			to = i
+			break
+		}
+	}
+	if from < 0 || to < 0 {
+		o.brokenDef(fs.coqName, fmt.Sprintf("segment `%s` .. `%s` not found in %s", first, stopPrefix, fs.name))
+		return
+	}
+	t := o.newTr(p, fs)
+	body := t.stmts(fd.Body.List[from:to], rest)
+	if t.err != nil {
+		o.brokenDef(fs.coqName, t.err.Error())
+		return
+	}
+	o.f("Definition %s %s : %s :=\n  %s.\n(* from %s:%s, statements %d..%d *)\n", fs.coqName, fs.params, fs.retType, body, fs.dir, fs.name, from, to-1)
+}
+
+func c16GorootPkg(rel string) *pkgInfo {
+	p := &pkgInfo{fset: token.NewFileSet(), files: map[string]*ast.File{}}
+	root := runtime.GOROOT()
+	if out, err := exec.Command("go", "env", "GOROOT").Output(); err == nil && strings.TrimSpace(string(out)) != "" {
+		root = strings.TrimSpace(string(out))
+	}
+	f, err := parser.ParseFile(p.fset, filepath.Join(root, "src", rel), nil, 0)
+	if err != nil {
+		broken = append(broken, "parse error GOROOT/"+rel+": "+err.Error())
+		return p
+	}
+	p.files[filepath.Base(rel)] = f
+	return p
+}
+
+func c16FuncIn(p *pkgInfo, name string) *ast.FuncDecl {
+	for _, f := range p.files {
+		for _, d := range f.Decls {
+			if fd, ok := d.(*ast.FuncDecl); ok && fd.Recv == nil && fd.Name.Name == name && fd.Body != nil {
+				return fd
+			}
+		}
+	}
+	return nil
+}
+
+func c16ConstIn(p *pkgInfo, name string) (int64, bool) {
+	for _, f := range p.files {
+		for _, d := range f.Decls {
+			gd, ok := d.(*ast.GenDecl)
+			if !ok || gd.Tok != token.CONST {
+				continue
+			}
+			for _, sp := range gd.Specs {
+				vs := sp.(*ast.ValueSpec)
+				for i, n := range vs.Names {
+					if n.Name == name && i < len(vs.Values) {
+						txt := strings.ReplaceAll(printNode(p.fset, vs.Values[i]), " ", "")
+						if v, err := strconv.ParseInt(txt, 0, 64); err == nil {
+							return v, true
+						}
+					}
+				}
+			}
+		}
+	}
+	return 0, false
+}
+
+func init() {
+	prev := generators["C16_gen"]
+	generators["C16_gen"] = func(o *out) {
+		prev(o)
+		o.f("\n(* ---- RSA-PSS salt length: declared (relic) vs used (crypto/rsa of the toolchain) ---- *)\n")
+		std := c16GorootPkg("crypto/rsa/pss.go")
+		zc := func(v int64) string {
+			if v < 0 {
+				return fmt.Sprintf("(%d)", v)
+			}
+			return fmt.Sprintf("%d", v)
+		}
+		leavesStd := map[string]string{"nil": "0", "ErrMessageTooLong": "1", "invalidSaltLenErr": "2"}
+		for _, c := range []struct{ goName, coqName string }{{"PSSSaltLengthAuto", "pss_salt_auto"}, {"PSSSaltLengthEqualsHash", "pss_salt_equals_hash"}} {
+			v, ok := c16ConstIn(std, c.goName)
+			if !ok {
+				o.brokenDef(c.coqName, "constant crypto/rsa."+c.goName+" not found")
+				continue
+			}
+			o.f("Definition %s : Z := %s. (* crypto/rsa.%s *)\n", c.coqName, zc(v), c.goName)
+			selectorConsts["rsa."+c.goName] = cval{i: v}
+			leavesStd[c.goName] = zc(v)
+		}
+		const dx = "lib/x509tools"
+		px, fdx := findFunc(dx, "", "MarshalRSAPSSParameters")
+		c16Segment(o, px, fdx, funcSpec{dir: dx, name: "MarshalRSAPSSParameters", coqName: "pss_declared_salt",
+			params: "(saltOpt modBits hLen : Z)", retType: "Z",
+			leaves: map[string]string{"opts.SaltLength": "saltOpt", "pub.N.BitLen()": "modBits", "opts.Hash.Size()": "hLen"}},
+			"saltLength := opts.SaltLength", "params :=", "v_saltLength")
+		o.hasStmt(dx, "", "MarshalRSAPSSParameters", "params := pssParameters{ Hash: hashAlg, MGF: pkix.AlgorithmIdentifier{ Algorithm: OidMGF1, Parameters: asn1.RawValue{FullBytes: hashRaw}, }, SaltLength: saltLength, TrailerField: 1, }", "pss_params_carry_salt_length")
+		leavesStd["opts.saltLength()"] = "saltOpt"
+		leavesStd["priv.N.BitLen()"] = "modBits"
+		leavesStd["hash.Size()"] = "hLen"
+		c16Segment(o, std, c16FuncIn(std, "SignPSS"), funcSpec{dir: "GOROOT/crypto/rsa", name: "SignPSS", coqName: "pss_used_salt",
+			params: "(saltOpt modBits hLen : Z)", retType: "(Z * Z)", leaves: leavesStd},
+			"saltLength := opts.saltLength()", "salt :=", "(v_saltLength, 0)")
+		// the two call sites get the same options and the same key
+		o.hasStmt("lib/pkcs7", "SignatureBuilder", "Sign", "digestAlg, pkeyAlg, err := x509tools.PkixAlgorithms(pubKey, sb.signerOpts)", "pss_sign_declares_with_builder_opts")
+		o.hasStmt("lib/pkcs7", "SignatureBuilder", "Sign", "sig, err := sb.privateKey.Sign(rand.Reader, digest, sb.signerOpts)", "pss_sign_signs_with_builder_opts")
+		o.hasStmt(dx, "", "PkixAlgorithms", "params, err = MarshalRSAPSSParameters(rsapub, pss)", "pss_pkix_passes_opts_unchanged")
+		fingerprint(dx, "", "PkixAlgorithms")
 	}
 }
